@@ -4,12 +4,19 @@
       - on success the remainder is a suffix of the input (consumed ++ rest = input);
       - decode_mut leaves the caller's slice untouched on failure and commits exactly
         decode's remainder on success.
-    The no-panic half is C01_no_panic (Proofs/DecodeSafe.v) under the decidable
-    side condition that excludes the listed known classes. *)
+      - NO RUN-TIME PANIC (Proofs/DecodeSafe.v): for every file whose declarations use
+        anything but arrays and typedef fields of a sized custom-field type (bit-fields,
+        optional fields, struct fields, payload / body, padding, inheritance, struct
+        recursion), every input, overflow mode and fuel, the emitted decoder yields a
+        value, a DecodeError or a refusal of the generator -- never BufUnderflow,
+        SliceIndex, SplitAt, ArithOverflow, DivZero...  The two excluded constructs are
+        exactly where the listed findings F02, F03, F19 live; for arrays the property is
+        decided by the correspondence check.  For declarations made of bit-fields only,
+        non-termination of the model is excluded as well. *)
 From Coq Require Import NArith List String Bool.
 From Coq Require Import Strings.Byte.
 From PDL Require Import Base.Bits Base.Outcome Lang.Ast Lang.Sexp Analyzer.Schema
-     Rust.Decode Rust.Runtime Proofs.DecodeSuffix Proofs.RuntimeLaws.
+     Rust.Decode Rust.Runtime Proofs.DecodeSuffix Proofs.DecodeSafe Proofs.RuntimeLaws.
 Import ListNotations.
 
 Theorem C01_remainder_is_suffix :
@@ -35,3 +42,44 @@ Theorem C01_decode_full_returns_when_decode_does :
     returns (decode_full value (rust_decode fuel oc fl sch id) bs).
 Proof. intros fuel oc fl sch id bs H. apply decode_full_total. exact H. Qed.
 Print Assumptions C01_decode_full_returns_when_decode_does.
+
+Theorem C01_no_runtime_panic_without_arrays_partial :
+  forall (fuel : nat) (oc : bool) (fl : file) (sch : schema) (id : string) (bs : list byte),
+    simple_file fl sch ->
+    no_rt_panic (rust_decode fuel oc fl sch id bs).
+Proof. intros. apply rust_decode_simple_nrp. assumption. Qed.
+Print Assumptions C01_no_runtime_panic_without_arrays_partial.
+
+Theorem C01_bitfield_declarations_total :
+  forall (fuel : nat) (oc : bool) (fl : file) (sch : schema) (id : string) (d : decl) (bs : list byte),
+    lookup_decl fl id = Some d ->
+    (exists i cs fs p, d = DPacket i cs fs p \/ d = DStruct i cs fs p) ->
+    bits_root fl d ->
+    runtime_safe (rust_decode (S fuel) oc fl sch id bs).
+Proof. exact rust_decode_bits_safe. Qed.
+Print Assumptions C01_bitfield_declarations_total.
+
+(** non-vacuity: a file with optional fields, a struct field, a sized payload and a
+    child satisfies the hypothesis (decided by computation) *)
+Example C01_hypothesis_is_satisfiable :
+  let e := DEnum "E" [TagValue "A" 1; TagValue "B" 2] 8 in
+  let s := DStruct "S" [] [mkField (Scalar "x" 16) None] None in
+  let p := DPacket "P" [] [mkField (Scalar "c" 1) None; mkField (Reserved 7) None;
+                           mkField (Typedef "k" "E") None;
+                           mkField (Scalar "o" 24) (Some (mkConstr "c" (Some 1) None));
+                           mkField (Typedef "s" "S") None;
+                           mkField (Size "_payload_" 8) None; mkField (Payload None) None] None in
+  let c := DPacket "C" [mkConstr "k" None (Some "A")] [mkField (Scalar "z" 8) None] (Some "P") in
+  let fl := mkFile LittleEndian [e; s; p; c] in
+  match mk_schema fl with
+  | Some sch => simple_file fl sch
+  | None => False
+  end.
+Proof.
+  cbv zeta.
+  match goal with |- match ?m with _ => _ end => destruct m as [sch|] eqn:Es end.
+  - apply simple_fileb_sound.
+    match type of Es with ?m = _ => let v := eval vm_compute in m in change m with v in Es end.
+    inversion Es. vm_compute. reflexivity.
+  - vm_compute in Es. discriminate.
+Qed.
